@@ -113,5 +113,9 @@ def selftest(rep, wd, cfg, traces):
         o["res"] = "Ok"
     tc.corrupt_and_judge(rep, wd, cfg, traces, lambda o: o["ev"] == "Insert" and o["res"] == "Collided", accept,
                          ["InsertBeatsCollisions"], "collided-accepted")
-    tc.corrupt_and_judge(rep, wd, cfg, traces, lambda o: o["ev"] == "Insert" and o["res"] in ("UtxoSpent", "CoinMismatch", "MsgUnknown"),
+    # only rejections whose acceptance must break InsertAdmits whatever the history: mismatching input fields or an
+    # unknown message (an input marked spent may be marked on behalf of a handed-out transaction, which is the
+    # business of InsertRespectsHandedOut, not of this cfg)
+    tc.corrupt_and_judge(rep, wd, cfg, traces,
+                         lambda o: o["ev"] == "Insert" and o["res"] in ("CoinMismatch", "MsgUnknown", "IoWrongAmount"),
                          accept, ["InsertAdmits"], "invalid-accepted")
